@@ -30,6 +30,11 @@
     IncOutNr / IncStep       onr / k                    onr / k
     Print m                  -                          log
     Exit                     -                          status
+    Normalize                g1, fl                     g1      (PhaseSpace::normalize(): data *= set/measured with the
+                                                                 *cached* measured filling; set-up only, main.cpp "initial renormalization")
+    Free o                   freed                      freed   (`delete wake_field; delete wm; delete fpm;` after the last status line;
+                                                                 wm is the WakePotentialMap `wkm` points to, or the Identity)
+    every call               freed                      uaf     ([uaf] is set when a call touches an object already freed - [uses])
     Point l                  pc                         pc, trace, abort   (VERIF_POINT hook: where a signal can arrive;
                                                                  [sig i] says whether SIGINT is raised at the i-th point)
 
@@ -53,12 +58,34 @@ Inductive map := MWake | MRF | MDrift | MFP.
 Inductive attype := AtAll | AtDefaults | AtPS | AtIfSave.
 Inductive akind := AGrid (a : attype) | ACsr | AWake | ATracks | ARFKicks | APadded.
 Inductive msg := MStatus | MAborted | MFinished.
+(** heap objects main() deletes itself: `wake_field`, `wm` (the object `wkm` points to when there is a wake), `fpm` *)
+Inductive obj := OWakeField | OWm | OFpm.
 Inductive call :=
 | UpdateXProj | Integrate | IntegrateAndNormalize | Variance (ax : bool) | UpdateYProj
 | WkmUpdate | WakePotential | UpdateCSR
 | Append (a : akind) | Apply (m : map) | Track (m : map)
-| IncOutNr | IncStep | Print (m : msg) | Exit | Point (l : Z).
-Inductive guard := GRenorm | GOut | GSave0 | GHdf | GWake | GDynRF | GAbort.
+| IncOutNr | IncStep | Print (m : msg) | Exit | Point (l : Z)
+| Normalize | Free (o : obj).
+(** GRenorm0 is `renormalize >= 0` (set-up: initial renormalisation) *)
+Inductive guard := GRenorm | GOut | GSave0 | GHdf | GWake | GDynRF | GAbort | GRenorm0.
+
+Definition obj_eqb (a b : obj) : bool :=
+  match a, b with OWakeField, OWakeField | OWm, OWm | OFpm, OFpm => true | _, _ => false end.
+
+(** the objects a call goes through (read off src/main.cpp: `wkm->update()` works on wkm and on the
+    field it was built with, `wake_field->wakePotential()`, `hdf_file->append(wkm)`,
+    `hdf_file->appendPadded(wake_field)`, `wm->apply()`, `fpm->apply()` and their applyToAll) *)
+Definition uses (c : call) : list obj :=
+  match c with
+  | WkmUpdate => [OWm; OWakeField]
+  | WakePotential => [OWakeField]
+  | Append AWake => [OWm]
+  | Append APadded => [OWakeField]
+  | Apply MWake | Track MWake => [OWm]
+  | Apply MFP | Track MFP => [OFpm]
+  | Free o => [o]
+  | _ => []
+  end.
 (** a block: sequence of calls and two-armed conditionals (plain inductive: usable induction) *)
 Inductive blk := Done | Seq (c : call) (r : blk) | Cond (g : guard) (t e r : blk).
 (** main() from "Starting the simulation": prologue; while (step<laststep && !abort) body; final block *)
@@ -164,32 +191,36 @@ Section Driver.
     trace : list (Z * Z);
     log : list msg;
     status : option Z;
-    file : list rec }.
+    file : list rec;
+    freed : list obj;
+    uaf : bool }.
 
-  Definition set_k (v : Z) (s : st) : st := mkst v (onr s) (g1 s) (g2 s) (g3 s) (xp s) (fl s) (yp s) (mo0 s) (mo1 s) (wf s) (wk s) (cs s) (rfo s) (mq s) (past s) (tr s) (rng s) (abort s) (pc s) (trace s) (log s) (status s) (file s).
-  Definition set_onr (v : Z) (s : st) : st := mkst (k s) v (g1 s) (g2 s) (g3 s) (xp s) (fl s) (yp s) (mo0 s) (mo1 s) (wf s) (wk s) (cs s) (rfo s) (mq s) (past s) (tr s) (rng s) (abort s) (pc s) (trace s) (log s) (status s) (file s).
-  Definition set_g1 (v : G) (s : st) : st := mkst (k s) (onr s) v (g2 s) (g3 s) (xp s) (fl s) (yp s) (mo0 s) (mo1 s) (wf s) (wk s) (cs s) (rfo s) (mq s) (past s) (tr s) (rng s) (abort s) (pc s) (trace s) (log s) (status s) (file s).
-  Definition set_g2 (v : G) (s : st) : st := mkst (k s) (onr s) (g1 s) v (g3 s) (xp s) (fl s) (yp s) (mo0 s) (mo1 s) (wf s) (wk s) (cs s) (rfo s) (mq s) (past s) (tr s) (rng s) (abort s) (pc s) (trace s) (log s) (status s) (file s).
-  Definition set_g3 (v : G) (s : st) : st := mkst (k s) (onr s) (g1 s) (g2 s) v (xp s) (fl s) (yp s) (mo0 s) (mo1 s) (wf s) (wk s) (cs s) (rfo s) (mq s) (past s) (tr s) (rng s) (abort s) (pc s) (trace s) (log s) (status s) (file s).
-  Definition set_xp (v : P) (s : st) : st := mkst (k s) (onr s) (g1 s) (g2 s) (g3 s) v (fl s) (yp s) (mo0 s) (mo1 s) (wf s) (wk s) (cs s) (rfo s) (mq s) (past s) (tr s) (rng s) (abort s) (pc s) (trace s) (log s) (status s) (file s).
-  Definition set_fl (v : Fl) (s : st) : st := mkst (k s) (onr s) (g1 s) (g2 s) (g3 s) (xp s) v (yp s) (mo0 s) (mo1 s) (wf s) (wk s) (cs s) (rfo s) (mq s) (past s) (tr s) (rng s) (abort s) (pc s) (trace s) (log s) (status s) (file s).
-  Definition set_yp (v : Y) (s : st) : st := mkst (k s) (onr s) (g1 s) (g2 s) (g3 s) (xp s) (fl s) v (mo0 s) (mo1 s) (wf s) (wk s) (cs s) (rfo s) (mq s) (past s) (tr s) (rng s) (abort s) (pc s) (trace s) (log s) (status s) (file s).
-  Definition set_mo0 (v : Mo) (s : st) : st := mkst (k s) (onr s) (g1 s) (g2 s) (g3 s) (xp s) (fl s) (yp s) v (mo1 s) (wf s) (wk s) (cs s) (rfo s) (mq s) (past s) (tr s) (rng s) (abort s) (pc s) (trace s) (log s) (status s) (file s).
-  Definition set_mo1 (v : Mo) (s : st) : st := mkst (k s) (onr s) (g1 s) (g2 s) (g3 s) (xp s) (fl s) (yp s) (mo0 s) v (wf s) (wk s) (cs s) (rfo s) (mq s) (past s) (tr s) (rng s) (abort s) (pc s) (trace s) (log s) (status s) (file s).
-  Definition set_wf (v : Wf) (s : st) : st := mkst (k s) (onr s) (g1 s) (g2 s) (g3 s) (xp s) (fl s) (yp s) (mo0 s) (mo1 s) v (wk s) (cs s) (rfo s) (mq s) (past s) (tr s) (rng s) (abort s) (pc s) (trace s) (log s) (status s) (file s).
-  Definition set_wk (v : W) (s : st) : st := mkst (k s) (onr s) (g1 s) (g2 s) (g3 s) (xp s) (fl s) (yp s) (mo0 s) (mo1 s) (wf s) v (cs s) (rfo s) (mq s) (past s) (tr s) (rng s) (abort s) (pc s) (trace s) (log s) (status s) (file s).
-  Definition set_cs (v : Cs) (s : st) : st := mkst (k s) (onr s) (g1 s) (g2 s) (g3 s) (xp s) (fl s) (yp s) (mo0 s) (mo1 s) (wf s) (wk s) v (rfo s) (mq s) (past s) (tr s) (rng s) (abort s) (pc s) (trace s) (log s) (status s) (file s).
-  Definition set_rfo (v : Rf) (s : st) : st := mkst (k s) (onr s) (g1 s) (g2 s) (g3 s) (xp s) (fl s) (yp s) (mo0 s) (mo1 s) (wf s) (wk s) (cs s) v (mq s) (past s) (tr s) (rng s) (abort s) (pc s) (trace s) (log s) (status s) (file s).
-  Definition set_mq (v : list Md) (s : st) : st := mkst (k s) (onr s) (g1 s) (g2 s) (g3 s) (xp s) (fl s) (yp s) (mo0 s) (mo1 s) (wf s) (wk s) (cs s) (rfo s) v (past s) (tr s) (rng s) (abort s) (pc s) (trace s) (log s) (status s) (file s).
-  Definition set_past (v : list Md) (s : st) : st := mkst (k s) (onr s) (g1 s) (g2 s) (g3 s) (xp s) (fl s) (yp s) (mo0 s) (mo1 s) (wf s) (wk s) (cs s) (rfo s) (mq s) v (tr s) (rng s) (abort s) (pc s) (trace s) (log s) (status s) (file s).
-  Definition set_tr (v : Tr) (s : st) : st := mkst (k s) (onr s) (g1 s) (g2 s) (g3 s) (xp s) (fl s) (yp s) (mo0 s) (mo1 s) (wf s) (wk s) (cs s) (rfo s) (mq s) (past s) v (rng s) (abort s) (pc s) (trace s) (log s) (status s) (file s).
-  Definition set_rng (v : Rng) (s : st) : st := mkst (k s) (onr s) (g1 s) (g2 s) (g3 s) (xp s) (fl s) (yp s) (mo0 s) (mo1 s) (wf s) (wk s) (cs s) (rfo s) (mq s) (past s) (tr s) v (abort s) (pc s) (trace s) (log s) (status s) (file s).
-  Definition set_abort (v : bool) (s : st) : st := mkst (k s) (onr s) (g1 s) (g2 s) (g3 s) (xp s) (fl s) (yp s) (mo0 s) (mo1 s) (wf s) (wk s) (cs s) (rfo s) (mq s) (past s) (tr s) (rng s) v (pc s) (trace s) (log s) (status s) (file s).
-  Definition set_pc (v : Z) (s : st) : st := mkst (k s) (onr s) (g1 s) (g2 s) (g3 s) (xp s) (fl s) (yp s) (mo0 s) (mo1 s) (wf s) (wk s) (cs s) (rfo s) (mq s) (past s) (tr s) (rng s) (abort s) v (trace s) (log s) (status s) (file s).
-  Definition set_trace (v : list (Z * Z)) (s : st) : st := mkst (k s) (onr s) (g1 s) (g2 s) (g3 s) (xp s) (fl s) (yp s) (mo0 s) (mo1 s) (wf s) (wk s) (cs s) (rfo s) (mq s) (past s) (tr s) (rng s) (abort s) (pc s) v (log s) (status s) (file s).
-  Definition set_log (v : list msg) (s : st) : st := mkst (k s) (onr s) (g1 s) (g2 s) (g3 s) (xp s) (fl s) (yp s) (mo0 s) (mo1 s) (wf s) (wk s) (cs s) (rfo s) (mq s) (past s) (tr s) (rng s) (abort s) (pc s) (trace s) v (status s) (file s).
-  Definition set_status (v : option Z) (s : st) : st := mkst (k s) (onr s) (g1 s) (g2 s) (g3 s) (xp s) (fl s) (yp s) (mo0 s) (mo1 s) (wf s) (wk s) (cs s) (rfo s) (mq s) (past s) (tr s) (rng s) (abort s) (pc s) (trace s) (log s) v (file s).
-  Definition set_file (v : list rec) (s : st) : st := mkst (k s) (onr s) (g1 s) (g2 s) (g3 s) (xp s) (fl s) (yp s) (mo0 s) (mo1 s) (wf s) (wk s) (cs s) (rfo s) (mq s) (past s) (tr s) (rng s) (abort s) (pc s) (trace s) (log s) (status s) v.
+  Definition set_k (v : Z) (s : st) : st := mkst v (onr s) (g1 s) (g2 s) (g3 s) (xp s) (fl s) (yp s) (mo0 s) (mo1 s) (wf s) (wk s) (cs s) (rfo s) (mq s) (past s) (tr s) (rng s) (abort s) (pc s) (trace s) (log s) (status s) (file s) (freed s) (uaf s).
+  Definition set_onr (v : Z) (s : st) : st := mkst (k s) v (g1 s) (g2 s) (g3 s) (xp s) (fl s) (yp s) (mo0 s) (mo1 s) (wf s) (wk s) (cs s) (rfo s) (mq s) (past s) (tr s) (rng s) (abort s) (pc s) (trace s) (log s) (status s) (file s) (freed s) (uaf s).
+  Definition set_g1 (v : G) (s : st) : st := mkst (k s) (onr s) v (g2 s) (g3 s) (xp s) (fl s) (yp s) (mo0 s) (mo1 s) (wf s) (wk s) (cs s) (rfo s) (mq s) (past s) (tr s) (rng s) (abort s) (pc s) (trace s) (log s) (status s) (file s) (freed s) (uaf s).
+  Definition set_g2 (v : G) (s : st) : st := mkst (k s) (onr s) (g1 s) v (g3 s) (xp s) (fl s) (yp s) (mo0 s) (mo1 s) (wf s) (wk s) (cs s) (rfo s) (mq s) (past s) (tr s) (rng s) (abort s) (pc s) (trace s) (log s) (status s) (file s) (freed s) (uaf s).
+  Definition set_g3 (v : G) (s : st) : st := mkst (k s) (onr s) (g1 s) (g2 s) v (xp s) (fl s) (yp s) (mo0 s) (mo1 s) (wf s) (wk s) (cs s) (rfo s) (mq s) (past s) (tr s) (rng s) (abort s) (pc s) (trace s) (log s) (status s) (file s) (freed s) (uaf s).
+  Definition set_xp (v : P) (s : st) : st := mkst (k s) (onr s) (g1 s) (g2 s) (g3 s) v (fl s) (yp s) (mo0 s) (mo1 s) (wf s) (wk s) (cs s) (rfo s) (mq s) (past s) (tr s) (rng s) (abort s) (pc s) (trace s) (log s) (status s) (file s) (freed s) (uaf s).
+  Definition set_fl (v : Fl) (s : st) : st := mkst (k s) (onr s) (g1 s) (g2 s) (g3 s) (xp s) v (yp s) (mo0 s) (mo1 s) (wf s) (wk s) (cs s) (rfo s) (mq s) (past s) (tr s) (rng s) (abort s) (pc s) (trace s) (log s) (status s) (file s) (freed s) (uaf s).
+  Definition set_yp (v : Y) (s : st) : st := mkst (k s) (onr s) (g1 s) (g2 s) (g3 s) (xp s) (fl s) v (mo0 s) (mo1 s) (wf s) (wk s) (cs s) (rfo s) (mq s) (past s) (tr s) (rng s) (abort s) (pc s) (trace s) (log s) (status s) (file s) (freed s) (uaf s).
+  Definition set_mo0 (v : Mo) (s : st) : st := mkst (k s) (onr s) (g1 s) (g2 s) (g3 s) (xp s) (fl s) (yp s) v (mo1 s) (wf s) (wk s) (cs s) (rfo s) (mq s) (past s) (tr s) (rng s) (abort s) (pc s) (trace s) (log s) (status s) (file s) (freed s) (uaf s).
+  Definition set_mo1 (v : Mo) (s : st) : st := mkst (k s) (onr s) (g1 s) (g2 s) (g3 s) (xp s) (fl s) (yp s) (mo0 s) v (wf s) (wk s) (cs s) (rfo s) (mq s) (past s) (tr s) (rng s) (abort s) (pc s) (trace s) (log s) (status s) (file s) (freed s) (uaf s).
+  Definition set_wf (v : Wf) (s : st) : st := mkst (k s) (onr s) (g1 s) (g2 s) (g3 s) (xp s) (fl s) (yp s) (mo0 s) (mo1 s) v (wk s) (cs s) (rfo s) (mq s) (past s) (tr s) (rng s) (abort s) (pc s) (trace s) (log s) (status s) (file s) (freed s) (uaf s).
+  Definition set_wk (v : W) (s : st) : st := mkst (k s) (onr s) (g1 s) (g2 s) (g3 s) (xp s) (fl s) (yp s) (mo0 s) (mo1 s) (wf s) v (cs s) (rfo s) (mq s) (past s) (tr s) (rng s) (abort s) (pc s) (trace s) (log s) (status s) (file s) (freed s) (uaf s).
+  Definition set_cs (v : Cs) (s : st) : st := mkst (k s) (onr s) (g1 s) (g2 s) (g3 s) (xp s) (fl s) (yp s) (mo0 s) (mo1 s) (wf s) (wk s) v (rfo s) (mq s) (past s) (tr s) (rng s) (abort s) (pc s) (trace s) (log s) (status s) (file s) (freed s) (uaf s).
+  Definition set_rfo (v : Rf) (s : st) : st := mkst (k s) (onr s) (g1 s) (g2 s) (g3 s) (xp s) (fl s) (yp s) (mo0 s) (mo1 s) (wf s) (wk s) (cs s) v (mq s) (past s) (tr s) (rng s) (abort s) (pc s) (trace s) (log s) (status s) (file s) (freed s) (uaf s).
+  Definition set_mq (v : list Md) (s : st) : st := mkst (k s) (onr s) (g1 s) (g2 s) (g3 s) (xp s) (fl s) (yp s) (mo0 s) (mo1 s) (wf s) (wk s) (cs s) (rfo s) v (past s) (tr s) (rng s) (abort s) (pc s) (trace s) (log s) (status s) (file s) (freed s) (uaf s).
+  Definition set_past (v : list Md) (s : st) : st := mkst (k s) (onr s) (g1 s) (g2 s) (g3 s) (xp s) (fl s) (yp s) (mo0 s) (mo1 s) (wf s) (wk s) (cs s) (rfo s) (mq s) v (tr s) (rng s) (abort s) (pc s) (trace s) (log s) (status s) (file s) (freed s) (uaf s).
+  Definition set_tr (v : Tr) (s : st) : st := mkst (k s) (onr s) (g1 s) (g2 s) (g3 s) (xp s) (fl s) (yp s) (mo0 s) (mo1 s) (wf s) (wk s) (cs s) (rfo s) (mq s) (past s) v (rng s) (abort s) (pc s) (trace s) (log s) (status s) (file s) (freed s) (uaf s).
+  Definition set_rng (v : Rng) (s : st) : st := mkst (k s) (onr s) (g1 s) (g2 s) (g3 s) (xp s) (fl s) (yp s) (mo0 s) (mo1 s) (wf s) (wk s) (cs s) (rfo s) (mq s) (past s) (tr s) v (abort s) (pc s) (trace s) (log s) (status s) (file s) (freed s) (uaf s).
+  Definition set_abort (v : bool) (s : st) : st := mkst (k s) (onr s) (g1 s) (g2 s) (g3 s) (xp s) (fl s) (yp s) (mo0 s) (mo1 s) (wf s) (wk s) (cs s) (rfo s) (mq s) (past s) (tr s) (rng s) v (pc s) (trace s) (log s) (status s) (file s) (freed s) (uaf s).
+  Definition set_pc (v : Z) (s : st) : st := mkst (k s) (onr s) (g1 s) (g2 s) (g3 s) (xp s) (fl s) (yp s) (mo0 s) (mo1 s) (wf s) (wk s) (cs s) (rfo s) (mq s) (past s) (tr s) (rng s) (abort s) v (trace s) (log s) (status s) (file s) (freed s) (uaf s).
+  Definition set_trace (v : list (Z * Z)) (s : st) : st := mkst (k s) (onr s) (g1 s) (g2 s) (g3 s) (xp s) (fl s) (yp s) (mo0 s) (mo1 s) (wf s) (wk s) (cs s) (rfo s) (mq s) (past s) (tr s) (rng s) (abort s) (pc s) v (log s) (status s) (file s) (freed s) (uaf s).
+  Definition set_log (v : list msg) (s : st) : st := mkst (k s) (onr s) (g1 s) (g2 s) (g3 s) (xp s) (fl s) (yp s) (mo0 s) (mo1 s) (wf s) (wk s) (cs s) (rfo s) (mq s) (past s) (tr s) (rng s) (abort s) (pc s) (trace s) v (status s) (file s) (freed s) (uaf s).
+  Definition set_status (v : option Z) (s : st) : st := mkst (k s) (onr s) (g1 s) (g2 s) (g3 s) (xp s) (fl s) (yp s) (mo0 s) (mo1 s) (wf s) (wk s) (cs s) (rfo s) (mq s) (past s) (tr s) (rng s) (abort s) (pc s) (trace s) (log s) v (file s) (freed s) (uaf s).
+  Definition set_file (v : list rec) (s : st) : st := mkst (k s) (onr s) (g1 s) (g2 s) (g3 s) (xp s) (fl s) (yp s) (mo0 s) (mo1 s) (wf s) (wk s) (cs s) (rfo s) (mq s) (past s) (tr s) (rng s) (abort s) (pc s) (trace s) (log s) (status s) v (freed s) (uaf s).
+  Definition set_freed (v : list obj) (s : st) : st := mkst (k s) (onr s) (g1 s) (g2 s) (g3 s) (xp s) (fl s) (yp s) (mo0 s) (mo1 s) (wf s) (wk s) (cs s) (rfo s) (mq s) (past s) (tr s) (rng s) (abort s) (pc s) (trace s) (log s) (status s) (file s) v (uaf s).
+  Definition set_uaf (v : bool) (s : st) : st := mkst (k s) (onr s) (g1 s) (g2 s) (g3 s) (xp s) (fl s) (yp s) (mo0 s) (mo1 s) (wf s) (wk s) (cs s) (rfo s) (mq s) (past s) (tr s) (rng s) (abort s) (pc s) (trace s) (log s) (status s) (file s) (freed s) v.
 
   (** which records HDF5File::append(ps,t,at) writes *)
   Definition at_all (c : cfg) (s : st) (a : attype) : bool * bool :=   (* (phase space?, defaults?) *)
@@ -213,7 +244,8 @@ Section Driver.
     | APadded => [mkrec (k s) (RPadded (wf s))]
     end.
 
-  Definition exec (sig : Z -> bool) (c : cfg) (a : call) (s : st) : st :=
+  (** the effect of a call on everything but the use-after-free flag *)
+  Definition exec1 (sig : Z -> bool) (c : cfg) (a : call) (s : st) : st :=
     match a with
     | UpdateXProj => set_xp (projX (g1 s)) s
     | Integrate => set_fl (integ (xp s)) s
@@ -242,7 +274,16 @@ Section Driver.
     | Print m => set_log (log s ++ [m]) s
     | Exit => set_status (Some 0) s
     | Point l => set_pc (pc s + 1) (set_trace (trace s ++ [(l, k s)]) (set_abort (abort s || sig (pc s)) s))
+    | Normalize => set_g1 (norm (g1 s) (fl s)) s
+    | Free o => set_freed (o :: freed s) s
     end.
+
+  (** does the call touch an object that was freed before *)
+  Definition touches_freed (a : call) (s : st) : bool :=
+    existsb (fun o => existsb (obj_eqb o) (freed s)) (uses a).
+
+  Definition exec (sig : Z -> bool) (c : cfg) (a : call) (s : st) : st :=
+    let s' := exec1 sig c a s in set_uaf (uaf s || touches_freed a s) s'.
 
   Definition gval (c : cfg) (s : st) (g : guard) : bool :=
     match g with
@@ -253,6 +294,7 @@ Section Driver.
     | GWake => wake c
     | GDynRF => dynrf c
     | GAbort => abort s
+    | GRenorm0 => 0 <=? renorm c
     end.
 
   Fixpoint exec_blk (sig : Z -> bool) (c : cfg) (b : blk) (s : st) : st :=
@@ -304,11 +346,11 @@ Definition nosig : Z -> bool := fun _ => false.
 Definition hooksig (at_ : Z) (rep : bool) : Z -> bool :=
   fun i => (0 <=? at_) && ((i =? at_) || (rep && (at_ <? i))).
 
-Arguments exec {K}. Arguments exec_blk {K}. Arguments gval {K}. Arguments cont {K}. Arguments loop {K}.
+Arguments exec {K}. Arguments exec1 {K}. Arguments touches_freed {K}. Arguments exec_blk {K}. Arguments gval {K}. Arguments cont {K}. Arguments loop {K}.
 Arguments iter {K}. Arguments run {K}. Arguments emit {K}. Arguments recs {K}. Arguments dyn {K}.
 Arguments Inv {K}. Arguments at_all {K}.
 
-Arguments k {K}. Arguments onr {K}. Arguments g1 {K}. Arguments g2 {K}. Arguments g3 {K}. Arguments xp {K}. Arguments fl {K}. Arguments yp {K}. Arguments mo0 {K}. Arguments mo1 {K}. Arguments wf {K}. Arguments wk {K}. Arguments cs {K}. Arguments rfo {K}. Arguments mq {K}. Arguments past {K}. Arguments tr {K}. Arguments rng {K}. Arguments abort {K}. Arguments pc {K}. Arguments trace {K}. Arguments log {K}. Arguments status {K}. Arguments file {K}.
-Arguments set_k {K}. Arguments set_onr {K}. Arguments set_g1 {K}. Arguments set_g2 {K}. Arguments set_g3 {K}. Arguments set_xp {K}. Arguments set_fl {K}. Arguments set_yp {K}. Arguments set_mo0 {K}. Arguments set_mo1 {K}. Arguments set_wf {K}. Arguments set_wk {K}. Arguments set_cs {K}. Arguments set_rfo {K}. Arguments set_mq {K}. Arguments set_past {K}. Arguments set_tr {K}. Arguments set_rng {K}. Arguments set_abort {K}. Arguments set_pc {K}. Arguments set_trace {K}. Arguments set_log {K}. Arguments set_status {K}. Arguments set_file {K}.
+Arguments k {K}. Arguments onr {K}. Arguments g1 {K}. Arguments g2 {K}. Arguments g3 {K}. Arguments xp {K}. Arguments fl {K}. Arguments yp {K}. Arguments mo0 {K}. Arguments mo1 {K}. Arguments wf {K}. Arguments wk {K}. Arguments cs {K}. Arguments rfo {K}. Arguments mq {K}. Arguments past {K}. Arguments tr {K}. Arguments rng {K}. Arguments abort {K}. Arguments pc {K}. Arguments trace {K}. Arguments log {K}. Arguments status {K}. Arguments file {K}. Arguments freed {K}. Arguments uaf {K}.
+Arguments set_k {K}. Arguments set_onr {K}. Arguments set_g1 {K}. Arguments set_g2 {K}. Arguments set_g3 {K}. Arguments set_xp {K}. Arguments set_fl {K}. Arguments set_yp {K}. Arguments set_mo0 {K}. Arguments set_mo1 {K}. Arguments set_wf {K}. Arguments set_wk {K}. Arguments set_cs {K}. Arguments set_rfo {K}. Arguments set_mq {K}. Arguments set_past {K}. Arguments set_tr {K}. Arguments set_rng {K}. Arguments set_abort {K}. Arguments set_pc {K}. Arguments set_trace {K}. Arguments set_log {K}. Arguments set_status {K}. Arguments set_file {K}. Arguments set_freed {K}. Arguments set_uaf {K}.
 Arguments mkst {K}. Arguments mkrec {K}. Arguments rstep {K}. Arguments rdata {K}.
 Arguments RPS {K}. Arguments RDef {K}. Arguments RCsr {K}. Arguments RWake {K}. Arguments RTracks {K}. Arguments RRF {K}. Arguments RPadded {K}.
